@@ -14,7 +14,7 @@ ID = "C19"
 LEVEL = "exploration"
 RULE = (
     "complete enumeration of the configuration product: the 7 non-empty subsets of {radio, application, top} for the root template "
-    "and the (secdom, sysctrl) set of the top template x {default, custom lower-case, custom with capitals / trailing dot / non-ASCII} MPI vendor/class names x {no version variables, VERSION "
+    "and the (secdom, sysctrl) set of the top template x {default, custom lower-case, custom with capitals / trailing dot / non-ASCII, custom with & < > ' \"} MPI vendor/class names x {no version variables, VERSION "
     "file, explicit *_SEQ_NUM/*_VERSION overrides}; child envelopes are sampled from the grammar generator (own digest algorithm, "
     "payloads, severed members) and REGENERATED at the same artifact paths for every configuration inside one process; rendering "
     "goes through ncs/build.py's own read_configurations / read_version_file / render_template (loaded by path) with generated "
@@ -28,6 +28,8 @@ ALG_BY_ID = {v: k for k, v in R.HASH_ALGS.items()}
 DEFAULT_NAMES = {"root": ("nordicsemi.com", "nRF54H20_sample_root"), "application": ("nordicsemi.com", "nRF54H20_sample_app"), "radio": ("nordicsemi.com", "nRF54H20_sample_rad"),
                  "top": ("nordicsemi.com", "nRF54H20_nordic_top"), "secdom": ("nordicsemi.com", "nRF54H20_sec"), "sysctrl": ("nordicsemi.com", "nRF54H20_sys")}
 CUSTOM_NAMES = {"root": ("acme.org", "my_root"), "application": ("acme.org", "App-1.x"), "radio": ("rad.example", "r4d_core")}
+# characters that HTML/XML escaping would rewrite - they are ordinary characters of a name (and of a YAML plain scalar when not leading)
+MARKUP_NAMES = {"root": ("R&D.example", "Root<1>&Co"), "application": ("O'Neill.example", "App_\"q\"_'s'"), "radio": ("a&b.example", "rad>x&y")}
 MIXED_NAMES = {"root": ("ACME-Corp.example", "Root Manifest"), "application": ("Example.COM.", "APP"), "radio": ("zażółć.pl", "Rádio")}
 _build = {}
 
@@ -164,7 +166,7 @@ def judge(case, acc, ctx):
     template, subset, custom, ver, k = case["template"], case["subset"], case["custom"], case["ver"], case["k"]
     names = dict(DEFAULT_NAMES)
     if custom:
-        names.update(MIXED_NAMES if custom == "mixed" else CUSTOM_NAMES)
+        names.update(MIXED_NAMES if custom == "mixed" else MARKUP_NAMES if custom == "markup" else CUSTOM_NAMES)
     cfg = ""
     if custom:
         cfg = "".join(f'SB_CONFIG_SUIT_MPI_{key}_VENDOR_NAME="{names[r][0]}"\nSB_CONFIG_SUIT_MPI_{key}_CLASS_NAME="{names[r][1]}"\n'
@@ -182,7 +184,7 @@ def judge(case, acc, ctx):
     for s in subset:
         cores.append(f"{s},{art}{s}_core.bin,,{art}empty.config")
         make_child(f"{art}{s}.suit", names[s], samples.get(s), k)
-    classes = [f"template:{template}", f"subset:{'+'.join(subset)}", ("mixed-case-names" if custom == "mixed" else "custom-names") if custom else "default-names", f"version:{ver}"]
+    classes = [f"template:{template}", f"subset:{'+'.join(subset)}", ("mixed-case-names" if custom == "mixed" else "markup-names" if custom == "markup" else "custom-names") if custom else "default-names", f"version:{ver}"]
     acc.case(nt_key=(template, subset, custom, ver, k, json.dumps(G.shape(samples))), classes=classes, sample={kk: v for kk, v in case.items() if kk != "children"},
              sample_key=f"{template}/{'+'.join(subset)}/{ver}")
     try:
@@ -224,7 +226,7 @@ def judge(case, acc, ctx):
 
 def configurations():
     for subset in itertools.chain.from_iterable(itertools.combinations(["radio", "application", "top"], r) for r in range(1, 4)):
-        for custom in (False, True, "mixed"):
+        for custom in (False, True, "mixed", "markup"):
             for ver in ("none", "file", "override"):
                 yield {"template": "root", "subset": list(subset), "custom": custom, "ver": ver}
     for ver in ("none", "file", "override"):
@@ -281,7 +283,7 @@ def replay(ctx, check, case):
 
 def finalize(ctx, m, ev):
     c = m["counters"]
-    ev["coverage"]["exhaustive"] = m["info"].get("configurations") == 66
-    ev["coverage"]["exhaustive_scope"] = "configuration product (7 subsets x 3 name sets x 3 + top x 3 = 66) enumerated completely; child envelopes sampled"
-    if m["info"].get("configurations") != 66:
-        raise boot.HarnessError(f"{m['info'].get('configurations')} of 66 configurations covered")
+    ev["coverage"]["exhaustive"] = m["info"].get("configurations") == 87
+    ev["coverage"]["exhaustive_scope"] = "configuration product (7 subsets x 4 name sets x 3 + top x 3 = 87) enumerated completely; child envelopes sampled"
+    if m["info"].get("configurations") != 87:
+        raise boot.HarnessError(f"{m['info'].get('configurations')} of 87 configurations covered")
